@@ -458,6 +458,20 @@ class Prop:
                     safe(copy.deepcopy, t)
                     safe(t.__getstate__)
                     safe(t.clone, t)
+                    # every attribute of a (throw-away copy of the) trait definition object:
+                    # read, delete, assign values of several kinds
+                    t2 = safe(copy.copy, t)
+                    if t2 is not None:
+                        attrs = sorted(a for a in dir(t2) if not a.startswith("__"))
+                        an = attrs[op["n"] * 7 % len(attrs)]
+                        for an in (an, attrs[op["v"] % len(attrs)]):
+                            safe(getattr, t2, an)
+                            safe(delattr, t2, an)
+                            safe(getattr, t2, an)
+                            for g in (v, None, 1, "s", (1, 2), H("garbage")):
+                                if not callable(getattr(type(t2), an, None)) or True:
+                                    safe(setattr, t2, an, g)
+                            safe(getattr, t2, an)
             elif k == "setq":
                 safe(o.trait_setq, **{name: v})
                 safe(o.trait_set, **{name: v, "i": op["n"]})
